@@ -4,7 +4,7 @@
 From ClapModel Require Import Base.Bytes Base.Machine Base.Utf8.
 From ClapModel Require Import Parse.Cmd Parse.Build Parse.Valid Parse.Matcher Parse.Errors Parse.Validator Parse.Parser.
 From ClapModel Require Import ParseProofs.Unparse ParseProofs.UnparseTree.
-From ClapModel Require Import Derive.DeriveModel Derive.DeriveProofs Derive.DeriveCmd Derive.DeriveArgs Derive.DeriveParse Derive.DeriveUpdate.
+From ClapModel Require Import Derive.DeriveModel Derive.DeriveProofs Derive.DeriveCmd Derive.DeriveArgs Derive.DeriveParse Derive.DeriveUpdate Derive.DeriveAccept.
 From ClapModel Require Import ParseProofs.Actions.
 From Coq Require Import ZArith List Bool Lia.
 Import ListNotations.
@@ -62,6 +62,26 @@ Theorem ex_roundtrip : derived_parse d (b_prog :: argv) = PValue v.
 Proof.
   destruct ex_parses as [m [Hp He]]. apply parse_factor. exists m. split; [exact Hp|]. split; [exact He|].
   exact (roundtrip_parse_sound d b_prog v argv m ex_struct ex_printable ex_ok ex_valid ex_print Hp).
+Qed.
+
+Ltac acc_num := intros st; vm_compute; reflexivity.
+Ltac acc_vals vp := exists vp; split; [vm_compute; reflexivity|];
+  apply Forall_forall; intros x Hx; vm_compute in Hx;
+  repeat (destruct Hx as [<-|Hx]; [vm_compute; reflexivity|]); destruct Hx.
+Ltac acc_act := cbn [field_action default_action from_syn_ty get_vec_ty is_generic_vec is_generic_option f_action f_syn f_t fl fo fv fc].
+Lemma ex_accepted : accepted_nodes d b_prog (d_nodes d) v.
+Proof.
+  intros f x gs Hat Hg. cbn [d_nodes d ns v at_node] in Hat.
+  destruct Hat as [[<- <-]|[[<- <-]|[[<- <-]|[[<- <-]|[]]]]]; vm_compute in Hg; inversion Hg; subst; clear Hg.
+  - split; [reflexivity|]. apply Forall_cons; [|apply Forall_nil]. split; [acc_num|]. acc_act.
+    acc_vals VPBool.
+  - split; [exists [[55]]; reflexivity|]. apply Forall_cons; [|apply Forall_nil]. split; [acc_num|]. acc_act.
+    acc_vals (VPI64 0 255).
+  - split; [discriminate|]. apply Forall_cons; [|apply Forall_cons; [|apply Forall_nil]]; (split; [acc_num|]); acc_act;
+      acc_vals VPString.
+  - split; [exists 3%nat; split; [reflexivity|lia]|].
+    apply Forall_cons; [|apply Forall_cons; [|apply Forall_cons; [|apply Forall_nil]]]; (split; [acc_num|]); acc_act;
+      (split; [repeat split; vm_compute; reflexivity|reflexivity]).
 Qed.
 
 Lemma ex_conv : conv (built d b_prog) = true /\ wf_inv (built d b_prog) (ILeaf (nodes_items (d_nodes d) v)) = true
